@@ -3,3 +3,4 @@ pub mod idgen;
 pub mod hash;
 pub mod redact;
 pub mod pdu;
+pub mod respell;
